@@ -258,6 +258,42 @@ def permuted(seed, tier):
     return out, groups
 
 
+# multi-file programs: the top-level statements of main.sy (imports included) in every order, natively; acceptance and the printed values must not depend on the order
+_UF = {"a/util.sy": "answer :: 1\nonly_in_a :: 10\n", "b/util.sy": "answer :: 2\n", "x.sy": "v :: 3\n", "y.sy": "v :: 4\nw :: 5\n", "set.sy": "answer :: 6\n"}
+IMPORT_ORDER = [
+    ("two_files_one_namespace_name", ["use a/util", "use b/util", "start :: fn do\n    print(util.answer)\nend"]),
+    ("two_files_one_namespace_name_member_of_one", ["use a/util", "use b/util", "start :: fn do\n    print(util.only_in_a)\nend"]),
+    ("two_files_one_alias", ["use x as m", "use y as m", "start :: fn do\n    print(m.v)\nend"]),
+    ("two_files_one_alias_member_of_one", ["use x as m", "use y as m", "start :: fn do\n    print(m.w)\nend"]),
+    ("same_name_from_two_files", ["from a/util use answer", "from b/util use answer", "start :: fn do\n    print(answer)\nend"]),
+    ("project_file_named_like_a_bundled_namespace", ["use /set", "k :: set.answer", "start :: fn do\n    print(k)\nend"]),
+    ("namespace_and_global_of_one_name", ["use a/util", "util :: 5", "start :: fn do\n    print(util)\nend"]),
+    ("distinct_aliases_and_dependent_globals", ["use a/util as ua", "use b/util as ub", "k :: ua.answer + ub.answer", "j :: k * 2", "start :: fn do\n    print(j)\n    print(ua.only_in_a)\nend"]),
+    ("same_file_imported_twice", ["use x", "use x as again", "start :: fn do\n    print(x.v + again.v)\nend"]),
+]
+
+
+def import_orders(sylt, fnd):
+    from luasym.luaparse import parse
+    from luasym import runner
+    n = 0
+    for name, chunks in IMPORT_ORDER:
+        seen = {}
+        for perm in itertools.permutations(range(len(chunks))):
+            text = "\n".join(chunks[i] for i in perm) + "\n"
+            rc, lua, out = common.compile_sy(sylt, dict(_UF, **{"main.sy": text})); n += 1
+            if rc != 0 or lua is None: key = ("rejected",)
+            else:
+                try: events, outcome, it = runner.run_concrete(parse(lua)); key = ("accepted", tuple(e[1] for e in events if e[0] == "print"), outcome[0])
+                except Exception as e: key = ("accepted", "chunk does not load: %s" % str(e)[:80])
+            seen.setdefault(key, (perm, text, out[-200:].replace("\n", " ")))
+        if len(seen) > 1:
+            ks = sorted(seen, key=str)
+            fnd.report("order-dependent-imports:" + name, "%s: in order %s the program is %s, in order %s it is %s" % (name, "".join(map(str, seen[ks[0]][0])), ks[0], "".join(map(str, seen[ks[1]][0])), ks[1]),
+                       dict(_UF, **{"main.sy": seen[ks[0]][1], "main_reordered.sy": seen[ks[1]][1]}), cmd="sylt -o a.lua main.sy; sylt -o b.lua main_reordered.sy")
+    return n
+
+
 def run(tier):
     t0 = time.time()
     art = common.artifacts()
@@ -297,12 +333,13 @@ def run(tier):
             elif r["status"] in ("engine_error", "template_error", "stuck", "undecided"):
                 fnd.undecided("%s: %s %s" % (n, r["status"], str(r.get("why"))[:200]))
         if len(samples) < 4: samples.append({"base": g, "orders": [n.split("#")[1] for n in names][:6], "statuses": sorted(set(sts.values()))})
-    cov = {"programs": agg["programs"], "disagreements_checked": confirmed, "samples": samples, "base_programs": len(groups),
+    nimp = import_orders(art["sylt"], fnd)
+    cov = {"programs": agg["programs"], "disagreements_checked": confirmed, "samples": samples, "base_programs": len(groups), "multi_file_orders_compiled": nimp,
            "status_counts": {k: agg.get(k, 0) for k in ("ok", "diff", "rejected", "load_error", "undecided", "stuck", "engine_error", "template_error")},
            "paths_lua": agg["paths_lua"], "cut_paths": agg["cut_paths"], "solver": {k: agg[k] for k in ("queries", "sat", "unsat", "unknown", "solver_s")},
            "functions_encoded": ["emitted chunk + preamble.lua (luasym)", "reference: syltsem/ref.py (globals forced on demand: order independent)"],
            "known_findings_seen": sorted(fnd.seen_known)}
     rc = fnd.finish()
-    common.write_evidence("C11", tier, "translation_validation", cov, tvrun.TV_ASSUMPTIONS + ["permutations: all up to %d per base program, else first, last and a seeded sample" % (6 if tier == "quick" else 24), "single-file programs; cross-file order is covered by C12's partitions"], time.time() - t0, len(fnd.violations))
+    common.write_evidence("C11", tier, "translation_validation", cov, tvrun.TV_ASSUMPTIONS + ["permutations: all up to %d per base program, else first, last and a seeded sample" % (6 if tier == "quick" else 24), "symbolic part: single-file programs; %d multi-file programs with every order of main.sy's top-level statements (imports included) are compared natively; the partition of a program into files is C12's" % len(IMPORT_ORDER)], time.time() - t0, len(fnd.violations))
     print("C11: %d base programs, %d permutations, %d confirmed, wall %.1fs" % (len(groups), len(templates), confirmed, time.time() - t0))
     return rc
